@@ -63,6 +63,15 @@ def run(chk):
                     cases.append((e, doc))
                     cases.append((("collect", e), doc))
                     cases.append((("add", e, L(100)), doc))
+    # directed: has(K) looks a key up by its text, whatever type K has (string keys spelled like numbers, booleans, null)
+    hdocs = [{"1": "a", "true": "b", "null": "c", "k": 1}, {"m": {"1": "x", "2": "y"}, "i": 2, "b": True}, [{"7": "x"}, {"8": "y"}, {"k": 7}], {"0": 0}]
+    hargs = [L(1), L(2), L(7), L(0), L(True), L(None), L("1"), L("true"), L("k"), ("sub", L(4), L(3)), ("getkey", "i"), ("getkey", "b"), ("getkey", "k")]
+    for doc in hdocs:
+        for a in hargs:
+            h = ("has", a)
+            for e in (h, ("pipe", ("getkey", "m"), h), ("collect", ("pipe", ("index", ("self",), None), ("select", h))),
+                      ("as", ("getkey", "i"), "i", ("pipe", ("getkey", "m"), ("has", ("var", "i")))), ("map", h)):
+                cases.append((e, doc))
     impl, mism, err = run_cases(chk, cases, "c01_cases")
     stats = collections.Counter()
     opsh = collections.Counter()
